@@ -20,29 +20,31 @@ pub fn compose(r: &dyn Retracer, input: &str) -> (String, usize, usize) {
     let mut out = String::new();
     let mut rewritten = 0;
     let mut passed = 0;
+    // lines are classified by the harness's own recognisers (model::traceparse), not by the crate's parser
+    use crate::model::traceparse::{frame_line, throwable_line};
     let frame_lines = |line: &str| -> Option<Vec<String>> {
-        let f = proguard::StackFrame::try_parse(line.as_bytes())?;
-        let frames = r.frame_line(f.class(), f.method(), f.line() as u64, f.file());
+        let f = frame_line(line)?;
+        let frames = r.frame_line(f.class, f.method, f.line, Some(f.file));
         if frames.is_empty() {
             return None;
         }
         Some(frames.iter().map(|x| format!("    at {}.{}({}:{})", x.class, x.method, x.file.unwrap_or("<unknown>"), x.line)).collect())
     };
     let throwable = |text: &str| -> Option<String> {
-        let t = proguard::Throwable::try_parse(text.as_bytes())?;
-        let (c, m) = r.throwable(t.class(), t.message())?;
+        let (class, message) = throwable_line(text)?;
+        let (c, m) = r.throwable(class, message)?;
         Some(match m {
             Some(m) => format!("{c}: {m}"),
             None => c.to_string(),
         })
     };
     for (i, line) in input.lines().enumerate() {
-        let is_throwable_shape = proguard::Throwable::try_parse(line.as_bytes()).is_some();
+        let is_throwable_shape = throwable_line(line).is_some();
         let replaced: Option<Vec<String>> = if i == 0 && is_throwable_shape {
             throwable(line).map(|t| vec![t])
         } else if i == 0 {
             frame_lines(line)
-        } else if proguard::StackFrame::try_parse(line.as_bytes()).is_some() {
+        } else if frame_line(line).is_some() {
             frame_lines(line)
         } else if let Some(rest) = line.strip_prefix("Caused by: ") {
             throwable(rest).map(|t| vec![format!("Caused by: {t}")])
@@ -169,9 +171,9 @@ pub fn check_text(r: &dyn Retracer, model: Option<&Model>, t: &TextTrace, st: &m
     // conservation: output line count = sum over input lines of max(1, #remapped frames)
     let mut expect_lines = 0usize;
     for (i, line) in input.lines().enumerate() {
-        let as_frame = if i == 0 && proguard::Throwable::try_parse(line.as_bytes()).is_some() { None } else { proguard::StackFrame::try_parse(line.as_bytes()) };
+        let as_frame = if i == 0 && crate::model::traceparse::throwable_line(line).is_some() { None } else { crate::model::traceparse::frame_line(line) };
         expect_lines += match as_frame {
-            Some(f) => r.frame_line(f.class(), f.method(), f.line() as u64, f.file()).len().max(1),
+            Some(f) => r.frame_line(f.class, f.method, f.line, Some(f.file)).len().max(1),
             None => 1,
         };
     }
